@@ -342,6 +342,22 @@ func vfP2POracles(t *vfTW, pre *vfTopicSnap, op vfP2POp, code int, frames map[st
 			}
 		}
 	}
+	// C09 "in store, cache, {get desc}, {get sub}": the loaded topic and the store hold the same marks
+	for _, u := range []string{"u0", "u1"} {
+		cs, okc := post.CSubs[u]
+		ss, oks := post.live(u)
+		if !post.Loaded || !okc || !oks || cs.Deleted {
+			continue
+		}
+		if cs.Read != ss.Read || cs.Recv != ss.Recv {
+			if pc, ok1 := pre.CSubs[u]; ok1 {
+				if ps, ok2 := pre.live(u); ok2 && pre.Loaded && (pc.Read != ps.Read || pc.Recv != ps.Recv) {
+					continue // left behind by an earlier step, reported there
+				}
+			}
+			bad("C09:marks-cache-differs-from-store:p2p:"+kind, fmt.Sprintf("after %s the loaded topic holds read=%d recv=%d for %s, the store read=%d recv=%d", op, cs.Read, cs.Recv, u, ss.Read, ss.Recv))
+		}
+	}
 	// marks bounds
 	for _, u := range []string{"u0", "u1"} {
 		if s, ok := post.live(u); ok && (s.Read < 0 || s.Read > s.Recv || s.Recv > post.SeqID) {
